@@ -80,7 +80,9 @@ Definition run_306 (h : list Z) : io :=
 (* 307: ops [opcode; i; kind; value]* | [kind; value] ++ sig group ... -> a role history on live signals: every signal
    is constructed with its token (the role fields of the sig group are ignored), then the operations run in order:
    opcode 0 s.multiplex_setter(x), 1 s.multiplex = s.multiplex_setter(x), 2 frame.multiplex_signals().
-   Answer: [1] :: per signal [is_mux; has_mux_val; mux_val; has_parent; parent; multiplex kind; multiplex value], [[0]] = outside *)
+   Answer: [1] :: per signal [is_mux; has_mux_val; mux_val; has_parent; parent], [[0]] = outside.  The `multiplex` attribute is
+   state of the model only: the property names mux_val / is_multiplexer / muxer_for_signal / mux_val_grp, not `multiplex`,
+   so it is not part of the answer that is compared with the implementation. *)
 Fixpoint ops_of (g : list Z) (fuel : nat) : list frame_op :=
   match fuel with
   | O => []
@@ -95,7 +97,7 @@ Definition mplex_out (x : mplex) : list Z := match x with MxNone => [0; 0] | MxM
 Definition run_307 (og : list Z) (sgs : io) : io :=
   match run_history (map (fun g => (m_sig (msig_of (skipn 2 g)), mplex_of (nthz g 0) (nthz g 1))) sgs) (ops_of og (length og)) with
   | None => [[0]]
-  | Some l => [1] :: map (fun st => role_out (fst st) ++ mplex_out (snd st)) l
+  | Some l => [1] :: map (fun st => role_out (fst st)) l
   end.
 
 Definition run_c03 (cmd : Z) (a : io) : io :=
